@@ -11,6 +11,15 @@ and tuples of nested lists; alone, paired with 1-D array / list / tuple
 columns and with columns of another width) go through the same drivers:
 `check_rebatched_rows` and `check_pipeline_single/pair`, reference model in
 vmc/oracles/rebatch_ref.py.
+
+ZERO-ROW INPUT BATCHES (an input batch whose columns are all empty: `[]`, `()`,
+an array of shape (0,) / (0, d) / (0, d, e)) are part of the size alphabet of
+BOTH tiers and of EVERY driver: leading, in the middle, trailing, several in a
+row and streams of empty batches only, so that they arrive both with an empty
+buffer and while rows are carried over.  The thorough tier simply uses the
+size alphabet 0..k everywhere; the quick tier adds, next to its 1..k
+sequences, every sequence over 0..z that contains at least one 0 (see
+`zero_sequences`).
 """
 import functools
 import itertools as itt
@@ -75,7 +84,7 @@ def make_stream(sizes, ncol, kinds):
 def check_rebatched(st, sizes, target, ncol, kinds, pad, infer):
   from ml_metrics._src.utils import iter_utils
   case = ('rebatched_args', sizes, target, ncol, kinds, pad, infer)
-  st.case(case, nontrivial=len(sizes) > 0)
+  st.case(case, nontrivial=sum(sizes) > 0)
   exp = reference(sizes, target, ncol, pad)
   try:
     kw = {} if infer else {'num_columns': ncol}
@@ -162,11 +171,14 @@ def _same_value(variant, a, b):
 def check_mixed_dtype(st, sizes, target, variant):
   from ml_metrics._src.utils import iter_utils
   case = ('rebatched_args:mixed-dtype', sizes, target, variant)
-  st.case(case)
+  st.case(case, nontrivial=sum(sizes) > 0)
   batches, flat, i = [], [], 0
   for j, sz in enumerate(sizes):
     vals = [_variant_value(variant, j, v) for v in range(i, i + sz)]
-    batches.append((np.asarray(vals), np.arange(i, i + sz)))
+    # a zero-row batch has the element type input batch j would have had with
+    # rows (a filtered-out shard), not numpy's float64 default for []
+    arr = np.asarray(vals or [_variant_value(variant, j, i)])[:sz]
+    batches.append((arr, np.arange(i, i + sz)))
     flat.extend(vals)
     i += sz
   try:
@@ -308,7 +320,7 @@ def check_rebatched_rows(st, sizes, target, layout, pad, infer):
   from ml_metrics._src.utils import iter_utils
   from vmc.oracles import rebatch_ref
   case = ('rebatched_args:rows', sizes, target, layout, pad, infer)
-  st.case(case, nontrivial=len(sizes) > 0)
+  st.case(case, nontrivial=sum(sizes) > 0)
   ncol = len(layout)
   exp = rebatch_ref.chunked(sizes, target, layout, pad)
   try:
@@ -414,7 +426,7 @@ def _spec_tag(layout):
 
 
 def _pipe_compare(st, name, case, layout, run_fn, exp):
-  st.case(case, nontrivial=bool(case[1]))
+  st.case(case, nontrivial=sum(case[1]) > 0)
   tag = _spec_tag(layout)
   try:
     got = run_fn()
@@ -466,7 +478,7 @@ def check_pipeline_single(st, sizes, targets, spec):
         return x
       name = 'apply.fn_batch_size+batch_size'
       case = (name, tuple(sizes), target, layout, fbs)
-      st.case(case, nontrivial=bool(sizes))
+      st.case(case, nontrivial=sum(sizes) > 0)
       try:
         t = chainable.TreeTransform().apply(
             fn=fn, fn_batch_size=fbs, batch_size=target)
@@ -562,6 +574,18 @@ UNITS.update(scalar=_unit, mixed=_mixed_unit, rows=_rows_unit,
              pipeline=_pipeline_unit)
 
 
+def zero_sequences(max_size, max_batches, min_len=1):
+  """Every sequence of <= max_batches sizes in 0..max_size with at least one 0.
+
+  Covers a zero-row batch in every position (leading, middle, trailing),
+  several in a row, and streams of zero-row batches only, each combined with
+  every filling of the other positions: so the empty batch arrives both with an
+  empty buffer and with 1..target-1 rows carried over.
+  """
+  return [q for q in enums.sequences(range(0, max_size + 1), max_batches,
+                                     min_len) if 0 in q]
+
+
 def run(ctx):
   quick = ctx.quick
   max_batches, max_size = (4, 4) if quick else (5, 5)
@@ -578,7 +602,34 @@ def run(ctx):
   specs, pairs = pipeline_specs(quick), pipeline_pairs(quick)
   p_batches, p_size = (3, 3) if quick else (4, 4)      # plain list column
   q_batches, q_size, q_target = (3, 2, 3) if quick else (3, 3, 4)   # the others
+  # The zero-row class of the quick tier (the thorough tier has 0 in every size
+  # alphabet): sequences with at least one 0, per driver family.
+  z_batches, z_size, z_target = 4, 2, 4      # scalar rows, rebatched_args
+  y_batches, y_size, y_target = 3, 2, 3      # non-scalar rows and the operators
+  m_batches, m_size = 3, 3                   # mixed element types
+  zseqs = zero_sequences(z_size, z_batches) if quick else []
+  yseqs = zero_sequences(y_size, y_batches) if quick else []
+  zmseqs = zero_sequences(m_size, m_batches, 2) if quick else []
+  zero_rule = (
+      'ZERO-ROW INPUT BATCHES (all columns empty: [], (), arrays of shape '
+      '(0,)/(0,d)/(0,d,e)) leading / in the middle / trailing / several in a '
+      'row / only-empty streams, arriving with an empty buffer and with rows '
+      'carried over, meet every driver, container kind, layout, column count, '
+      'pad and num_columns variant listed here: ' + (
+          f'in addition to the 1..k size alphabets below, every sequence with at '
+          f'least one 0 of <= {z_batches} batches with sizes 0..{z_size} x target '
+          f'1..{z_target} (scalar rows through rebatched_args; {len(zseqs)} '
+          f'sequences), of <= {y_batches} batches with sizes 0..{y_size} x target '
+          f'1..{y_target} (non-scalar row layouts through rebatched_args and all '
+          f'column specs / pairs through the operators incl. the plain list column; '
+          f'{len(yseqs)} sequences), of 2-{m_batches} batches with sizes '
+          f'0..{m_size} (mixed element types; the empty batch has the element '
+          f'type of its position; {len(zmseqs)} sequences); ' if quick else
+          'size 0 is a member of every size alphabet below (rebatched_args, '
+          'mixed element types, non-scalar rows, operators); ') +
+      'assign is exempt (it needs every input batch to have the target size); ')
   ctx.rule = (
+      zero_rule +
       f'every sequence of <= {max_batches} input batches with sizes in '
       f'{min_size}..{max_size} x target 1..{max(targets)} x 1-3 columns x '
       f'container kinds (uniform and mixed{"" if quick else ", all combinations"}) '
@@ -596,18 +647,20 @@ def run(ctx):
       '(padding an array column appends whole rows of the pad value); '
       'plus apply/select(batch_size, fn_batch_size, fn_batch_size != batch_size) '
       f'pipelines over every sequence of <= {p_batches} list batches with sizes '
-      f'1..{p_size} x target 1..4, and over every sequence of <= {q_batches} '
-      f'batches with sizes 1..{q_size} x target 1..{q_target} of one Key.SELF '
+      f'{min_size}..{p_size} x target 1..4, and over every sequence of <= {q_batches} '
+      f'batches with sizes {min_size}..{q_size} x target 1..{q_target} of one Key.SELF '
       f'column of each of {len(specs)} further column specs (1-D array, (n,d) '
       f'and (n,d,e) arrays, nested lists) and of {len(pairs)} two-column dict '
       'layouts (wide array with 1-D array / list / nested list) through '
       'apply/select with two keys (and assign when every input batch '
-      'has the target size); non-trivial = non-empty stream; '
+      'has the target size); non-trivial = stream with at least one row; '
       'distinct = distinct (driver, sizes, target, columns/layout, kinds, pad, infer)')
   ctx.assumptions += [
       'rows are unique tagged integers (column*1000+row; for non-scalar rows '
       'column*100000+row*100+index inside the row) so alignment is observable',
-      'zero-sized input batches are only enumerated in the thorough tier',
+      'a zero-row input batch has the container kind, element type and row '
+      'shape of its column (what slicing / filtering a batch down to nothing '
+      'gives), not numpy\'s float64 default for []',
       'a padded array column is expected to gain whole rows filled with the pad '
       'value (row shape unchanged); list / tuple columns gain the pad value',
       'tuple batches are not sent through the operators (TreeFn reads a tuple '
@@ -615,19 +668,31 @@ def run(ctx):
   ]
   units = [('scalar', (u, tuple(targets), ncols, ctx.tier))
            for u in enums.chunks(ctx.shuffled(seqs), 64)]
-  mseqs = [q for q in enums.sequences(range(1, 4 if quick else 5),
+  mseqs = [q for q in enums.sequences(range(min_size, 4 if quick else 5),
                                       3 if quick else 4) if len(q) >= 2]
+  mseqs += zmseqs
   units += [('mixed', (u, tuple(range(1, 5))))
             for u in enums.chunks(ctx.shuffled(mseqs), 16)]
   units += [('rows', (u, tuple(range(1, r_target + 1)), layouts, variants))
             for u in enums.chunks(ctx.shuffled(rseqs), 32 if quick else 128)]
-  pseqs = list(enums.sequences(range(1, p_size + 1), p_batches))
+  pseqs = list(enums.sequences(range(min_size, p_size + 1), p_batches))
   units += [('pipeline', (u, tuple(range(1, 5)), (LS(),), ()))
             for u in enums.chunks(ctx.shuffled(pseqs), 16 if quick else 64)]
-  qseqs = list(enums.sequences(range(1, q_size + 1), q_batches))
+  qseqs = list(enums.sequences(range(min_size, q_size + 1), q_batches))
   units += [('pipeline', (u, tuple(range(1, q_target + 1)), specs, pairs))
             for u in enums.chunks(ctx.shuffled(qseqs), 16 if quick else 64)]
+  # the zero-row class of the quick tier, through the same unit functions
+  units += [('scalar', (u, tuple(range(1, z_target + 1)), ncols, ctx.tier))
+            for u in enums.chunks(ctx.shuffled(zseqs), 32)]
+  units += [('rows', (u, tuple(range(1, y_target + 1)), layouts, variants))
+            for u in enums.chunks(ctx.shuffled(yseqs), 16)]
+  units += [('pipeline', (u, tuple(range(1, y_target + 1)), (LS(),) + specs,
+                          pairs))
+            for u in enums.chunks(ctx.shuffled(yseqs), 25)]
   ctx.pmap(_dispatch, units)
+  ctx.notes['zero_row_size_sequences'] = {
+      'scalar': len(zseqs), 'rows_and_operators': len(yseqs),
+      'mixed': len(zmseqs)} if quick else 'size 0 is in every alphabet'
   ctx.notes['input_size_sequences'] = len(seqs)
   ctx.notes['non_scalar_row_layouts'] = len(layouts)
   ctx.notes['non_scalar_row_size_sequences'] = len(rseqs)
